@@ -260,7 +260,7 @@ const NAME_PIECES: &[&str] = &[
 ];
 
 fn gen_name() -> String {
-    match choose_w(&[6, 3, 1, 1], "name.class") {
+    match choose_w(&[6, 3, 1, 1, 2], "name.class") {
         0 => NAME_PIECES[choose(NAME_PIECES.len(), "name.piece")].to_string(),
         1 => format!(
             "{}.{}",
@@ -268,12 +268,23 @@ fn gen_name() -> String {
             NAME_PIECES[choose(NAME_PIECES.len(), "name.piece")]
         ),
         2 => "long.".repeat(range(10, 60, "name.long")) + "end",
-        _ => String::new(),
+        3 => String::new(),
+        _ => {
+            // a name of 1..400 characters over one unit (1..4 bytes each) after 0..3 bytes of padding: multi-byte
+            // characters at every alignment against any byte offset a reader might cut or copy at
+            let unit = ["a", "\u{e9}", "\u{20ac}", "\u{1f600}", "\u{7f}"][choose(5, "name.unit")];
+            let n = match choose(3, "name.len_class") {
+                0 => range(1, 8, "name.units"),
+                1 => range(9, 100, "name.units"),
+                _ => range(101, 400, "name.units"),
+            };
+            "x".repeat(choose(4, "name.pad")) + &unit.repeat(n)
+        }
     }
 }
 
 fn gen_fields(max: usize) -> FieldList {
-    let n = choose_w(&[1, 3, 3, 3, 2, 2, 1, 1], "scheme.nfields_class");
+    let n = choose_w(&[2, 6, 6, 6, 4, 4, 2, 2, 1], "scheme.nfields_class");
     let n = match n {
         0 => 0,
         1 => 1,
@@ -282,7 +293,9 @@ fn gen_fields(max: usize) -> FieldList {
         4 => range(4, 8, "scheme.nfields"),
         5 => range(9, 16, "scheme.nfields"),
         6 => range(17, 30, "scheme.nfields"),
-        _ => range(31, 40, "scheme.nfields"),
+        7 => range(31, 40, "scheme.nfields"),
+        // more fields than a machine word has bits
+        _ => range(63, 140, "scheme.nfields"),
     }
     .min(max);
     let mut out: FieldList = Vec::new();
@@ -613,7 +626,7 @@ fn run_inner(ctx: &RunCtx) -> Result<(), Violation> {
     }
     match choose_w(&[8, 2, 2, 2], "kind") {
         0 => {
-            let fields = gen_fields(40);
+            let fields = gen_fields(140);
             let entry = gen_entry();
             let mutation = match choose_w(&[4, 2, 2, 2, 1], "mutation") {
                 0 => Mutation::None,
